@@ -6,8 +6,8 @@
 From Coq Require Import List NArith ZArith Bool.
 From Coq Require String.
 Import String.StringSyntax.
-From Sccache Require Import Base.Sx Model.DistStatus Model.DistFallback Model.DistArgs.
-From Sccache Require Proofs.DistStatus Proofs.DistFallback Proofs.DistArgs.
+From Sccache Require Import Base.Sx Model.DistStatus Model.DistFallback Model.DistArgs Model.DistHistory.
+From Sccache Require Proofs.DistStatus Proofs.DistFallback Proofs.DistArgs Proofs.DistHistory.
 Import ListNotations.
 
 (* ------------------------------------------------------------------ exit status *)
@@ -168,6 +168,68 @@ Theorem C13_cached_like_local : forall (s : script) (f : fs) (st : stage),
 Proof. exact Proofs.DistFallback.cached_like_local. Qed.
 Print Assumptions C13_cached_like_local.
 
+(* ------------------------------------------------------------------ pre-existing files, histories *)
+
+(* What a request does to the disk is, per path, "overwrite with this / remove / leave alone", decided by the
+   fault script alone; neither that nor the result depends on what the files held before (in particular not on
+   whether the previous build's object was shorter, equal or longer than the one written now). *)
+Theorem C13_effect_independent_of_preexisting : forall s : script,
+  (exists g : path -> option (option content),
+     forall f p, fs_get (r_fs (dist_or_local true s f)) p = match g p with Some c => c | None => fs_get f p end)
+  /\ (forall f1 f2, r_out (dist_or_local true s f1) = r_out (dist_or_local true s f2)
+                    /\ r_local_ran (dist_or_local true s f1) = r_local_ran (dist_or_local true s f2)).
+Proof. exact Proofs.DistHistory.effect_independent_of_preexisting. Qed.
+Print Assumptions C13_effect_independent_of_preexisting.
+
+(* over any history of requests, with the preprocessor cache on or off: a job is never sent an empty
+   translation unit (the direct-mode shortcut, which has none, is only taken without a dist client) *)
+Theorem C13_job_input_complete : forall (pp : bool) (steps : list step) (h : hstate) (o : hobs),
+  In o (hrun pp h steps) -> ho_sent o <> Some TuEmpty.
+Proof. exact Proofs.DistHistory.job_input_complete. Qed.
+Print Assumptions C13_job_input_complete.
+
+(* a stored result is served on the next request for the same source exactly as stored, whatever lies at the path *)
+Theorem C13_hit_restores_exact : forall (pp : bool) (h : hstate) (st : step) (c : content) (sr : src),
+  lookup (st_variant st) (h_store h) = Some (c, sr) ->
+  ho_hit (snd (hstep pp h st)) = true
+  /\ fs_get (h_fs (fst (hstep pp h st))) 0%N = Some c
+  /\ ho_src (snd (hstep pp h st)) = Some sr
+  /\ ho_ran (snd (hstep pp h st)) = false
+  /\ ho_sent (snd (hstep pp h st)) = None
+  /\ h_store (fst (hstep pp h st)) = h_store h.
+Proof. exact Proofs.DistHistory.hit_restores_exact. Qed.
+Print Assumptions C13_hit_restores_exact.
+
+(* a successful compile (remote or fallback) is stored: what is stored is what is on disk *)
+Theorem C13_miss_is_stored : forall (pp : bool) (h : hstate) (st : step) (dt : dist_type),
+  lookup (st_variant st) (h_store h) = None ->
+  ho_q (snd (hstep pp h st)) = QMiss dt ->
+  exists c sr, fs_get (h_fs (fst (hstep pp h st))) 0%N = Some c
+    /\ ho_src (snd (hstep pp h st)) = Some sr
+    /\ lookup (st_variant st) (h_store (fst (hstep pp h st))) = Some (c, sr).
+Proof. exact Proofs.DistHistory.miss_is_stored. Qed.
+Print Assumptions C13_miss_is_stored.
+
+(* a toolchain cache too small for the packaged toolchain: EVERY request (first, repeated, after a client
+   restart) is the documented error and never a silent local compile; no dangling weak-key entry appears *)
+Theorem C13_toolchain_too_large_every_request : forall limit size : N,
+  (limit < size)%N ->
+  forall ops t f, t_weak t = false ->
+  forall t' o, In (t', o) (tc_run limit size (t, f) ops) ->
+    t_weak t' = false
+    /\ (forall r, o = Some r -> r_out r = OErr KTooLarge /\ r_local_ran r = false).
+Proof. exact Proofs.DistHistory.tc_too_large_every_request. Qed.
+Print Assumptions C13_toolchain_too_large_every_request.
+
+(* ... and when it fits every request is compiled remotely, the archive being there whenever the weak key is *)
+Theorem C13_toolchain_fits_every_request : forall limit size : N,
+  (size <= limit)%N ->
+  forall ops t f, (t_weak t = true -> t_archive t = true) ->
+  forall t' o r, In (t', o) (tc_run limit size (t, f) ops) -> o = Some r ->
+    r_out r = OOk DistOk (to_local 0) /\ r_local_ran r = false.
+Proof. exact Proofs.DistHistory.tc_fits_every_request. Qed.
+Print Assumptions C13_toolchain_fits_every_request.
+
 (* ------------------------------------------------------------------ remote command line *)
 
 (* -x <lang>[-cpp-output], compilation flag, input, -o, output, [-fdirectives-only] -fpreprocessed (gcc),
@@ -270,3 +332,20 @@ Example dist_args_example :
          p_suppress_rio := false |} (bs "a.o") = Some c
     /\ d_args c = [bs "-x"; bs "c++"; bs "-c"; bs "a.cpp"; bs "-o"; bs "a.o"; bs "-fdirectives-only"; bs "-fpreprocessed"; bs "-O2"].
 Proof. eexists. vm_compute. auto. Qed.
+
+(* a failing remote compile followed by the identical request, preprocessor cache on: both jobs get the full unit;
+   then the same without a dist client: the second request takes the direct-mode shortcut (no preprocessor run) *)
+Example history_example :
+  let failing d := {| st_script := set_run (RunComplete 1 []) (set_dist d ok_script); st_variant := 0%N;
+                      st_clean := false; st_pre := [(0%N, 2%N)] |} in
+  map (fun o => (ho_sent o, ho_pprun o)) (hrun true h_init [failing true; failing true])
+    = [(Some TuFull, true); (Some TuFull, true)]
+  /\ map (fun o => (ho_sent o, ho_pprun o)) (hrun true h_init [failing false; failing false])
+    = [(None, true); (None, false)].
+Proof. vm_compute. auto. Qed.
+
+Example toolchain_example :
+  map (fun x => match snd x with Some r => Some (r_out r) | None => None end)
+      (tc_run 1000 5000 (tc_init, []) [TcRequest true (LExit 0%Z [0%N]); TcRestart; TcRequest true (LExit 0%Z [0%N])])
+    = [Some (OErr KTooLarge); None; Some (OErr KTooLarge)].
+Proof. vm_compute. reflexivity. Qed.
